@@ -4,3 +4,4 @@ import NautilusVerif.Driver.Prior
 import NautilusVerif.Driver.ResampleD
 import NautilusVerif.Driver.UnionD
 import NautilusVerif.Driver.CoreD
+import NautilusVerif.Driver.CrashD
